@@ -566,7 +566,7 @@ def run_ctx(case, root):
     saved = os.getcwd()
     ctxvar = getattr(getattr(J, "_util", None), "current_path_dir", None)
     steps = case["steps"]
-    info = {"entered": 0, "invalid": False}
+    info = {"entered": 0, "invalid": False, "valid_kinds": []}  # valid_kinds: steps the MODEL considers enterable
 
     def here():
         return os.path.realpath(os.getcwd())
@@ -583,6 +583,8 @@ def run_ctx(case, root):
         want = os.path.realpath(want)
         target = os.path.normpath(os.path.join(other_base[0] if other_base else cur, arg))
         valid = os.path.isdir(target) if "d" in mode else os.path.isfile(target)
+        if valid and steps[i] not in info["valid_kinds"]:
+            info["valid_kinds"].append(steps[i])
         try:
             if steps[i] == "dir-prebuilt":
                 p = prebuilt
@@ -609,7 +611,7 @@ def run_ctx(case, root):
             descend(i + 1, want)
             if here() != want:
                 # the block that has just been left is the one that had to restore
-                devs.append((f"ctx:cwd-not-restored:after-inner-exit:{steps[i + 1]}", f"cwd {here()!r}, model {want!r}"))
+                devs.append((f"ctx:cwd-not-restored:after-inner-exit:{steps[min(i + 1, len(steps) - 1)]}", f"cwd {here()!r}, model {want!r}"))
         if here() != cur:
             devs.append((f"ctx:cwd-not-restored:after-exit:{steps[i]}", f"cwd {here()!r}, model {cur!r}"))
 
@@ -635,10 +637,8 @@ def run_ctx(case, root):
         if ctxvar is not None and ctxvar.get() is not None:
             ctxvar.set(None)
     info["raised"] = raised
-    # several steps can report the same class: one entry per signature
-    seen, uniq = set(), []
-    for s, d in devs:
-        if s not in seen:
-            seen.add(s)
-            uniq.append((s, d))
-    return uniq, info
+    # one deviation per sequence: the first in execution order.  From there on the process and the model are in
+    # different directories, and everything later in the same sequence (wrong cwd in inner blocks, refused steps,
+    # wrong directory after exit) is a consequence that would only multiply signatures; every inner step is also
+    # the first step of a shorter sequence of the enumeration.
+    return devs[:1], info
